@@ -46,8 +46,8 @@ def oracle(probes, ops, obs, res):
         k = op[0]
         if o["err"]:
             if k == "LR" and o["err"] == "KeyError":
-                # removing a listener that is not registered, outside any datagram: the call raises, nothing else happens.
-                # The property speaks about datagrams; this is not reported (reading decision in notes/agents/C06.md)
+                # (only on a tree without the D18 repair) removing a listener that is not registered, outside any datagram: the call
+                # raises, nothing else happens.  The property speaks about datagrams; not reported (notes/agents/C06.md)
                 break
             if k == "D" and o["err"] == "KeyError" and o.get("failed"):
                 ph, lid, _, tg = o["failed"][0]
